@@ -7,7 +7,7 @@
 (* each related term, with no / the same / another exception on either     *)
 (* side, and inside the syntactic contexts ( s ), ( s AND P ), P OR s,     *)
 (* s AND P (the last ones place the spelling directly before ')' and       *)
-(* before an operator).                                                    *)
+(* before an operator); X ~ X-only also directly before an abutting '+'.   *)
 (*                                                                         *)
 (* Interchangeable (invariant): the model - scanner, parser, matcher over  *)
 (* the SHIPPED table - predicts the same validity and verdict for both     *)
@@ -68,9 +68,17 @@ PairOk(p, o) ==
         /\ Res(<<X \o " WITH " \o Exc1, <<p[1], X \o " WITH " \o Exc1>> >>) = Res(<<X \o " WITH " \o Exc1, <<p[2], X \o " WITH " \o Exc1>> >>)
         /\ Res(<<p[i], <<X \o " WITH " \o Exc1, p[1]>> >>) = Res(<<p[i], <<X \o " WITH " \o Exc1, p[2]>> >>)
 
+\* X ~ X-only directly before an abutting '+' (R2: 'X-only+' is in the grammar; the second pair would give a double plus)
+PlusCtx(s, o) == << <<s \o "+", <<o>> >>, <<o, <<s \o "+">> >>, <<s \o "+ WITH " \o Exc1, <<o \o " WITH " \o Exc1>> >>,
+                    <<"(" \o s \o "+) AND " \o Plain, <<o, Plain>> >>, <<o \o " AND " \o Plain, <<Plain, s \o "+">> >> >>
+PlusOk(p, o) == \A n \in DOMAIN PlusCtx(p[1], o) :
+                   /\ Valid(PlusCtx(p[1], o)[n][1]) = Valid(PlusCtx(p[2], o)[n][1])
+                   /\ Res(PlusCtx(p[1], o)[n]) = Res(PlusCtx(p[2], o)[n])
+
 Interchangeable ==
   (vId > 0 /\ vRel > 0) =>
-     \A n \in 1..2 : BothValid(Pairs(X)[n]) => PairOk(Pairs(X)[n], Related[vId][vRel])
+     /\ \A n \in 1..2 : BothValid(Pairs(X)[n]) => PairOk(Pairs(X)[n], Related[vId][vRel])
+     /\ BothValid(Pairs(X)[1]) => PlusOk(Pairs(X)[1], Related[vId][vRel])
 
 ResJ(c) == LET r == Res(c) IN [sat |-> r.sat, err |-> r.err]
 \* R9: where an id sits at two table positions the table defines no single answer; only the relation is asserted
@@ -105,6 +113,11 @@ Emit ==
            PrintT(ToJson([k |-> "str", s |-> s, valid |-> Valid(s), compound |-> FALSE, amb |-> SetToSeqS(Parse(s).amb)]))
   /\ (vId > 0 /\ vRel > 0) =>
         \A n \in 1..2 : BothValid(Pairs(X)[n]) => EmitPair(Pairs(X)[n], Related[vId][vRel])
+  /\ (vId > 0 /\ vRel > 0 /\ BothValid(Pairs(X)[1])) =>
+        \A n \in DOMAIN PlusCtx(X, X) :
+           LET c1 == PlusCtx(Pairs(X)[1][1], Related[vId][vRel])[n]
+               c2 == PlusCtx(Pairs(X)[1][2], Related[vId][vRel])[n]
+           IN PrintT(ToJson([k |-> "same", calls |-> <<CallJ(c1), CallJ(c2)>>, exp |-> <<ResJ(c1), ResJ(c2)>>, posdep |-> PosDep(c1, c2)]))
 
 ASSUME LowFormsAgree
 =============================================================================
